@@ -549,7 +549,9 @@ class Project(MessageHandler):
 
         Also compute start/end dates for container tasks based on children.
         """
-        for task in self.tasks:
+        # Children are declared after their parents: walk in reverse declaration
+        # order so that nested containers are rolled up before their enclosing ones.
+        for task in reversed(list(self.tasks)):
             if task.leaf():
                 continue  # Skip leaf tasks
 
